@@ -35,8 +35,8 @@ Lemma rmx_step_class r t th r' t' th' ev :
 Proof.
   destruct th as [pc h todo]. unfold mx_step_th, rmx_label, rmx_tcas, rmx_tload, rmx_cas.
   cbn [xpc xh xtodo]. intros Hs.
-  destruct pc; [destruct todo as [|[sp st| |] rest]| | | | | | | | | | | | | |];
-    rmx_conds; inversion Hs; subst; cbn [xh mx_mkth]; auto.
+  destruct pc; [destruct todo as [|[sp st| |] rest]| | | | | | | | | | | | | | |];
+    unfold mx_to_cas, mx_uslow_done in *; rmx_conds; inversion Hs; subst; cbn [xh mx_mkth]; auto.
 Qed.
 
 (* ------------------------------------------------------------------ the state after a step *)
@@ -299,7 +299,8 @@ Lemma rmx_labels_match_events r t th :
 Proof.
   destruct th as [pc h todo]. unfold mx_step_th, rmx_label, rmx_tcas, rmx_tload, rmx_cas.
   cbn [xpc xh xtodo].
-  destruct pc; [destruct todo as [|[sp st| |] rest]| | | | | destruct t | | | | | | | | |];
+  destruct pc; [destruct todo as [|[sp st| |] rest]| | | | | destruct t | | | | | | | | | |];
+    unfold mx_to_cas, mx_uslow_done;
     repeat match goal with |- context [if ?c then _ else _] => destruct c eqn:? end; cbn [snd];
     try reflexivity; try exact I.
 Qed.
